@@ -326,15 +326,6 @@ func genTx(r *Rng, wfOnly bool) *transaction.Transaction {
 		}
 		tx.Outputs = append(tx.Outputs, o)
 	}
-	if wfOnly && !tx.HasWitness() {
-		// witness data that HasWitness() does not see cannot be represented: drop it
-		for _, in := range tx.Inputs {
-			in.IssuanceRangeProof, in.InflationRangeProof = nil, nil
-		}
-		for _, o := range tx.Outputs {
-			o.SurjectionProof = nil
-		}
-	}
 	return tx
 }
 
